@@ -10,7 +10,7 @@ func TestC38(t *testing.T) { simkit.Main(t, SpecC38()) }
 func TestC10(t *testing.T) { simkit.Main(t, SpecC10()) }
 func TestC11(t *testing.T) { simkit.Main(t, SpecC11()) }
 func TestC12(t *testing.T) { simkit.Main(t, SpecC12()) }
-func TestC23(t *testing.T) { simkit.Main(t, SpecC23()) }
+func TestC23(t *testing.T) { simkit.Main(t, SpecC23c()) }
 func TestC14(t *testing.T) { simkit.Main(t, SpecC14()) }
 func TestC15(t *testing.T) { simkit.Main(t, SpecC15()) }
 func TestC19(t *testing.T) { simkit.Main(t, SpecC19()) }
@@ -19,3 +19,9 @@ func TestC16(t *testing.T) { simkit.Main(t, SpecC16()) }
 func TestC17(t *testing.T) { simkit.Main(t, SpecC17()) }
 func TestC18(t *testing.T) { simkit.Main(t, SpecC18()) }
 func TestC37(t *testing.T) { simkit.Main(t, SpecC37()) }
+func TestC33(t *testing.T) { simkit.Main(t, SpecC33()) }
+func TestC01(t *testing.T) { simkit.Main(t, SpecC01()) }
+func TestC24(t *testing.T) { simkit.Main(t, SpecC24()) }
+func TestC25(t *testing.T) { simkit.Main(t, SpecC25()) }
+func TestC02(t *testing.T) { simkit.Main(t, SpecC02()) }
+func TestC27(t *testing.T) { simkit.Main(t, SpecC27()) }
